@@ -289,33 +289,37 @@ def _scan(f, tr, trigger, summ, env):
 
 
 def _check_primitive(ctx, db, rid, f, T):
-    """inside awaiter::subscribe / subscribe_check_ready: nothing of `this` is touched on the success edge of the CAS"""
-    traces = T.traces(f)
+    """inside awaiter::subscribe / subscribe_check_ready (helpers of the class expanded in place): nothing of `this` is touched once the
+    CAS that installs `this` in the chain has succeeded, nor between that CAS and the test of its outcome"""
+    from .rules import htracer
+    from .core import tests
+    traces = htracer(db).traces(f)
     ctx.paths(rid, len(traces))
-    cas = [e for e in f.events() if e.k == 'call' and 'compare_exchange' in (e.get('callee') or '')]
-    if not cas:
-        raise Broken('anchor vanished: no compare_exchange in %s' % f['nname'])
-    for e in cas:
-        bad = None
-        for tr in traces:
-            pub = False
-            for i, it in enumerate(tr):
-                if it.k == 'abort':
-                    break
-                if it.k == 'branch' and it.cond_ev == e['id']:
-                    pub = bool(it.val)
-                    continue
-                if it.k == 'call' and it.get('id') == e['id'] and it.get('use') not in ('cond', 'operand'):
-                    pub = True
-                    continue
-                if pub:
-                    t = _is_touch(it, 'this', f, db, False)
-                    if t:
-                        bad = (it, t, fmt_trace(tr[max(0, i - 10):i + 1])); break
-            if bad:
+    sites = {}
+    for tr in traces:
+        pub = False; pend = None; cur = None
+        for i, it in enumerate(tr):
+            if it.k == 'abort':
                 break
-        what = 'nothing of the awaiter is touched after the CAS that publishes it succeeded'
+            if it.k == 'call' and is_atomic_call(it) and 'compare_exchange' in (it.get('callee') or '') and len(it.get('args') or []) >= 2 and it['args'][1].get('path') == 'this':
+                cur = it.get('loc'); sites.setdefault(cur, None)
+                if (it.get('use') or '') in ('cond', 'operand', 'return') or (it.get('use') or '').startswith('init:'):
+                    pend = it; pub = False
+                else:
+                    pub = True; pend = None
+                continue
+            if pend is not None and it.k == 'branch' and tests(it, pend):
+                pub = bool(it.val); pend = None
+                continue
+            if pub or pend is not None:
+                t = _is_touch(it, 'this', f, db, False)
+                if t and sites.get(cur) is None:
+                    sites[cur] = (it, t, fmt_trace(tr[max(0, i - 10):i + 1]))
+    if not sites:
+        raise Broken('anchor vanished: no compare_exchange installing this in %s' % f['nname'])
+    what = 'nothing of the awaiter is touched after the CAS that publishes it succeeded'
+    for loc, bad in sorted(sites.items()):
         if bad:
-            ctx.ob(rid, f, e['loc'], False, what, detail={'touch': bad[1], 'at': relloc(bad[0].get('loc'))}, desc='touch of this after publishing CAS', trace=bad[2])
+            ctx.ob(rid, f, loc, False, what, detail={'touch': bad[1], 'at': relloc(bad[0].get('loc'))}, desc='touch of this after publishing CAS', trace=bad[2])
         else:
-            ctx.ob(rid, f, e['loc'], True, what)
+            ctx.ob(rid, f, loc, True, what)
